@@ -22,7 +22,8 @@ RULE = ("(1) Complete enumeration of cluster-size vectors: K<=3 (quick) / K<=4 (
         "multiples of m, moves only donor->needy, bystanders untouched, greedy donor usage by decreasing spread with ties in "
         "any order, input state byte-identical afterwards on both paths, same RNG state -> same output). "
         "Non-trivial = at least one cluster with fewer than 2 points (a repopulation is actually attempted); distinct by "
-        "SHA-1 of the case.")
+        "SHA-1 of the case."
+        ' min_cluster_size also as a NumPy integer scalar (int8..uint64, multiples far inside the type); enumerations also in a python -O process.')
 ASSUMPTIONS = ["cluster spread is the Frobenius norm of the fitted covariance, given here as 1x1 matrices with prescribed values",
                "K>=1, m>=1, every label in [0,K) (what the main loop hands to the step)"]
 
